@@ -111,7 +111,11 @@ CLAIMED = {
        "losses, symbolic n and batch size) and z3 discharges MLL[b] = (log N(y_b; marginal) + sum added[b] + sum_p sum_e log prior_p[b, e]) / n, "
        "the call order likelihood(f) then log_prob(y), prior closures evaluated on the owning module, and no reduction across batch elements; "
        "SumMarginalLogLikelihood = mean of the members applied to their own arguments; MultivariateNormal.log_prob = the Gaussian log "
-       "density (shared with C10). Bounded tier (not counted): dense float64 value AND gradient w.r.t. every raw hyperparameter on the "
+       "density (shared with C10); LeaveOneOutPseudoLikelihood.forward (batch ranks 0, 1; Cholesky factor and its solves as callee contracts): the first solve is "
+       "against the identity, the second against y - m, sigma2_i = 1 / (K^-1)_ii, mu_i = y_i - (K^-1 (y - m))_i sigma2_i, value = (sum_i log N(y_i; mu_i, "
+       "sigma2_i) + priors + added losses) / n; plus the Lean 4 / Mathlib lemma lean/Loo.lean (re-checked by lean every run) that 1 / (K^-1)_ii and "
+       "y_i - (K^-1 y)_i / (K^-1)_ii are the predictive variance and mean of point i given the others (block-inverse / Schur-complement identity). "
+       "Bounded tier (not counted): dense float64 value AND gradient w.r.t. every raw hyperparameter on the "
        "Cholesky path for homoskedastic / fixed-noise / multitask-Kronecker likelihoods, priors, batch shapes; the LOO objective against the n "
        "true leave-one-out predictive log densities computed by deleting each point.",
   design_ref="DESIGN.md section 5, C02",
